@@ -166,8 +166,9 @@ def _job(items):
     for wname, double in items:
         try:
             out.append(run_workload(wname, double))
-        except core.HarnessError:
-            raise
+        except core.HarnessError as e:
+            # decided in run(): a harness error unless other workloads produced violations (which stand on their own replay)
+            out.append(({"workload": wname, "harness_error": str(e)[:600]}, []))
         except BaseException as e:  # noqa
             import traceback
             raise core.HarnessError(f"workload {wname}: {type(e).__name__}: {e}\n{traceback.format_exc()[-1500:]}")
@@ -179,11 +180,19 @@ def run(tier, seed):
     names = list(workloads())
     outs = pool.pmap(_job, [(n, tier != "quick" or n in ("W1_first_keep_str", "W3_rekeep_changed")) for n in names], chunk=1)
     per = []
+    deferred = []
     for stats, probs in outs:
+        if "harness_error" in stats:
+            deferred.append(stats)
+            continue
         per.append(stats)
         for k, what, case in probs:
             res.violations.append(Violation(P, k, f"[{stats['workload']}] killed before primitive {case['kill_at']}"
                                             + (f", recovery killed before its primitive {case['second']}" if case.get("second") is not None else "") + f": {what}", case))
+    if deferred and not res.violations:
+        raise core.HarnessError(deferred[0]["harness_error"])
+    for d in deferred:
+        res.notes.append(f"workload {d['workload']} could not be explored: {d['harness_error'][:300]}")
     res.violations.sort(key=lambda v: (v.replay["second"] is not None, v.replay["kill_at"]))
     res.coverage = dict(evaluations=sum(s["crash_points"] for s in per), distinct_nontrivial=sum(s["distinct_crash_states"] for s in per),
                         exhaustive=True, per_workload=per, traces_validated_against_impl=len(per),
